@@ -5,6 +5,7 @@ import (
 	"fmt"
 	"sort"
 	"strings"
+	"sync/atomic"
 	"time"
 
 	"github.com/vektah/gqlparser/v2/ast"
@@ -83,9 +84,57 @@ func scenDET(s *sched.Sim, cfg Config, res *Result) {
 		status int
 	}
 	var reps []rep
+	var together []rep // answers to the operation sent several times at once
+	atOnceFirst := s.T.Bool(1, 2)
 	var done bool
 	idx := 0
 	s.Go("client", func() {
+		// (on a cold plan cache when it comes first)
+		atOnce := func() {
+			// the same operation several times at once: as the elements of one batch, and from two
+			// clients side by side (every answer must be the answer of the repetitions above). Queries
+			// only: a mutation repeated inside one request is not "the same request again".
+			if kind == ast.Query {
+				one := clientReq{Query: op.Text, Variables: op.Vars, OperationName: op.OpName}
+				keyOf := func(g *gwResult) (string, string) {
+					if g == nil {
+						return "<no result>", ""
+					}
+					b, _ := json.Marshal(g.Data)
+					var es []string
+					for _, e := range g.Errors {
+						es = append(es, errKey(e))
+					}
+					sort.Strings(es)
+					return string(b), strings.Join(es, "|")
+				}
+				cr := env.post("rb", []clientReq{one, one, one}, true)
+				for i, g := range cr.Batch {
+					d, e := keyOf(g)
+					together = append(together, rep{data: d, errs: []string{e}, status: 1000 + i})
+				}
+				var n atomic.Int32
+				side := make([]*clientResp, 2)
+				for j := 0; j < 2; j++ {
+					j := j
+					s.Go(fmt.Sprintf("side%d", j), func() {
+						side[j] = env.post(fmt.Sprintf("rs%d", j), []clientReq{one}, false)
+						n.Add(1)
+					})
+				}
+				for n.Load() < 2 {
+					s.Park("wait-overlap")
+				}
+				for j, c := range side {
+					d, e := keyOf(c.Single)
+					together = append(together, rep{data: d, errs: []string{e}, status: 2000 + j})
+				}
+				res.Probe("det.same-operation-several-times-at-once")
+			}
+		}
+		if atOnceFirst {
+			atOnce()
+		}
 		for i := 0; i < k; i++ {
 			idx = i
 			wireFrom := len(env.wire)
@@ -111,6 +160,9 @@ func scenDET(s *sched.Sim, cfg Config, res *Result) {
 			reps = append(reps, r)
 			// a different schedule for the next repetition
 			s.Policy = drawPolicy(s)
+		}
+		if !atOnceFirst {
+			atOnce()
 		}
 		done = true
 	})
@@ -148,6 +200,19 @@ func scenDET(s *sched.Sim, cfg Config, res *Result) {
 			order = append(order, o.url)
 		}
 		distinctOrders[strings.Join(order, ",")] = true
+	}
+	if len(reps) > 0 {
+		for _, t := range together {
+			how := "as element of a batch of three"
+			if t.status >= 2000 {
+				how = "next to the same operation from another client"
+			}
+			if t.data != reps[0].data {
+				res.Violate(prop+"/data-differs-when-sent-at-once", "the operation sent %s answers %s\nsent alone it answers %s\nop: %s vars: %v", how, clipStr(t.data, 500), clipStr(reps[0].data, 500), op.Text, op.Vars)
+			} else if t.errs[0] != strings.Join(reps[0].errs, "|") {
+				res.Violate(prop+"/errors-differ-when-sent-at-once", "the operation sent %s has errors %v, sent alone %v\nop: %s", how, t.errs, reps[0].errs, op.Text)
+			}
+		}
 	}
 	if len(reps) > 1 {
 		res.Checks++
